@@ -30,6 +30,7 @@ ASSUMPTIONS = [
     'the lookup has distinct non-negative entries (its documented precondition)',
     'integer overflow of signed dtypes is outside the model; unsigned wrap-around is modelled',
     'float arithmetic is exact rational arithmetic (grouped_mean)',
+    "forms added after seeding rounds: a 21-id request over a sparse id alphabet with 40 fixed + 2 symbolic spikes (NumPy's sort-based membership branch: decided by the witness replays only); int8/uint8/int16 quantities in grouped_mean",
 ]
 STUBS = []
 OUTSIDE = ['vectors longer than the bound', 'float rounding in grouped_mean']
